@@ -25,7 +25,7 @@ type c12Case struct {
 func init() {
 	engine.Register(&engine.Check{
 		ID: "C12", Level: "exploration",
-		Rule:        "every ordered pair of non-degenerate directed segments on the 6x6 (quick) / 7x7 (thorough) integer grid (all argument orders and directions, all 16 envelope-membership combinations of the collinear branch), each also scaled by 2^20 and translated by (2^20,-2^19); plus a T-junction/touching lattice on rough integer coordinates up to 2^21 (an endpoint exactly on the other segment, all 8 role/direction variants; the endpoint must be returned bit-identical); plus +-1 ulp perturbations of touching / T-junction / collinear configurations with non-trivial mantissas (classification only). Oracle: exact rational classification none/point/overlap; endpoint intersections returned bit-identical; proper crossings within 8 ulps of (|x|+|y|+scale); overlap endpoints exact; NonRobustLineIntersector.HasIntersection = exact on grid inputs. distinct_nontrivial = distinct pairs whose segments intersect or whose envelopes overlap Also: long segments crossing at an angle of ~1e-6 on the 2^20 grid (8 symmetries x 8 role/direction variants, position within 8 ulps), and nearly coincident segments (each ordinate -2..2 ulps off) reaching the fallback paths (classification; reported point within rounding of both envelopes).",
+		Rule:        "every ordered pair of non-degenerate directed segments on the 6x6 (quick) / 7x7 (thorough) integer grid (all argument orders and directions, all 16 envelope-membership combinations of the collinear branch), each also scaled by 2^20 and translated by (2^20,-2^19); plus a T-junction/touching lattice on rough integer coordinates up to 2^21 (an endpoint exactly on the other segment, all 8 role/direction variants; the endpoint must be returned bit-identical); plus +-1 ulp perturbations of touching / T-junction / collinear configurations with non-trivial mantissas (classification only). Oracle: exact rational classification none/point/overlap; endpoint intersections returned bit-identical; proper crossings within 8 ulps of (|x|+|y|+scale); overlap endpoints exact; NonRobustLineIntersector.HasIntersection = exact on grid inputs. distinct_nontrivial = distinct pairs whose segments intersect or whose envelopes overlap Also: ~1000 exactly axis-parallel segments crossed properly by rough segments on grids [-2^k,2^k], k=17..20 (8 role/direction variants); long segments crossing at an angle of ~1e-6 on the 2^20 grid (8 symmetries x 8 role/direction variants, position within 8 ulps), and nearly coincident segments (each ordinate -2..2 ulps off) reaching the fallback paths (classification; reported point within rounding of both envelopes).",
 		Run:         c12Run,
 		Replay:      func(c *engine.Ctx, kind string, raw json.RawMessage) { c12Exec(c, decodeCase[c12Case](raw)) },
 		Assumptions: []string{"segments of non-zero length; grid inputs make every intermediate of the homogeneous-coordinate computation exact, so only the final division and re-translation round"},
@@ -277,6 +277,27 @@ func c12Run(c *engine.Ctx) {
 				c.Count("long_small_angle_cases", 1)
 				c12Exec(c, c12Case{Pts: []ref.F{ref.F(a1[0]), ref.F(a1[1]), ref.F(a2[0]), ref.F(a2[1]), ref.F(b1[0]), ref.F(b1[1]), ref.F(b2[0]), ref.F(b2[1])}})
 			}
+		}
+	})
+	// an exactly horizontal or vertical segment crossed properly by a rough one on grids up to
+	// 2^20 (both signs): all 8 role/direction variants
+	apc := axisParallelCrossings()
+	c.Note("axis_parallel_crossings", len(apc))
+	c.Parallel(len(apc), func(i int) {
+		t := apc[i]
+		for variant := 0; variant < 8; variant++ {
+			a1, a2, b1, b2 := [2]float64{t[0], t[1]}, [2]float64{t[2], t[3]}, [2]float64{t[4], t[5]}, [2]float64{t[6], t[7]}
+			if variant&1 != 0 {
+				a1, a2 = a2, a1
+			}
+			if variant&2 != 0 {
+				b1, b2 = b2, b1
+			}
+			if variant&4 != 0 {
+				a1, a2, b1, b2 = b1, b2, a1, a2
+			}
+			c.Count("axis_parallel_cases", 1)
+			c12Exec(c, c12Case{Pts: []ref.F{ref.F(a1[0]), ref.F(a1[1]), ref.F(a2[0]), ref.F(a2[1]), ref.F(b1[0]), ref.F(b1[1]), ref.F(b2[0]), ref.F(b2[1])}})
 		}
 	})
 	// mixed-magnitude exactly collinear triples (S,P,E): P on segment SE, second segment from P
